@@ -29,6 +29,33 @@ def norm(node):
     return ' '.join(ast.unparse(node).split())
 
 
+def rel(test):
+    """(small, strict, big) for a single ordering comparison, whichever way round it is written:
+    `a < b` and `b > a` both give (a, True, b); `a <= b` / `b >= a` give (a, False, b).  None otherwise."""
+    if isinstance(test, ast.Compare) and len(test.ops) == 1:
+        o, l, r = test.ops[0], test.left, test.comparators[0]
+        if isinstance(o, ast.Lt): return (l, True, r)
+        if isinstance(o, ast.LtE): return (l, False, r)
+        if isinstance(o, ast.Gt): return (r, True, l)
+        if isinstance(o, ast.GtE): return (r, False, l)
+    return None
+
+
+def cnorm(text):
+    """canonical text of an expression given as source text (same normal form as the analysed program)"""
+    from .normalise import normalise
+    return norm(normalise(ast.parse(text, mode='eval')).body)
+
+
+def cnorm_block(src):
+    """canonical one-line text of a statement sequence given as source text"""
+    from .normalise import normalise
+    import textwrap
+    # inside a function, so that the statement-level rewrites (temporaries, returns) apply as they do in the program
+    t = normalise(ast.parse('def _f():\n' + textwrap.indent(textwrap.dedent(src), '    ')))
+    return ' '.join(norm(s) for s in t.body[0].body)
+
+
 def digest(text):
     return hashlib.sha1(text.encode()).hexdigest()[:10]
 
@@ -128,6 +155,8 @@ class ModuleInfo(object):
         with warnings.catch_warnings():
             warnings.simplefilter('ignore')
             self.tree = ast.parse(self.src, self.path)
+        from .normalise import normalise
+        self.tree = normalise(self.tree)
         self.nlines = self.src.count('\n') + 1
         self.classes, self.functions, self.globals = {}, {}, {}
         self.star_imports, self.imports = [], {}
